@@ -5,6 +5,7 @@ package c11
 
 import (
 	"bytes"
+	"database/sql/driver"
 	"encoding/binary"
 	"encoding/hex"
 	"fmt"
@@ -360,6 +361,12 @@ func checkRepr(c reprCase) evid.Outcome {
 		if b, ok := dv.([]byte); err != nil || !ok || !bytes.Equal(b, c.Bytes) {
 			return evid.Fail("%s: Value()=%v err=%v", c.Type, dv, err)
 		}
+		// the identifier handed to database/sql BY VALUE (a query argument, a struct field): the driver's parameter
+		// converter must find its database representation
+		cv, err := driver.DefaultParameterConverter.ConvertValue(cur())
+		if b, ok := cv.([]byte); err != nil || !ok || !bytes.Equal(b, c.Bytes) {
+			return evid.Fail("%s %s passed by value as a database/sql argument converts to %v (err %v), want its %d bytes", c.Type, evid.Hex(c.Bytes), cv, err, want)
+		}
 	}
 	cls := c.Type + "/valid"
 	if !valid {
@@ -401,6 +408,6 @@ func TestProp(t *testing.T) {
 		400000, 8000000, genMember, checkMember)
 
 	evid.Rapid(r, t, "representations",
-		"EUI64/DevAddr/NetID/AES128Key of correct length and of wrong lengths 0..20 (random bytes; 3/10 all-zero, all-ones or with leading zero bytes): text (hex, optional 0x, upper/lower case), binary (byte reversed), Scan/Value; wrong lengths must be rejected by all three decoders, and so must the right text followed or preceded by further characters (a digit, a byte pair, a newline, a blank, a comma and a second identifier) or cut by one digit. Every case is non-trivial.",
+		"EUI64/DevAddr/NetID/AES128Key of correct length and of wrong lengths 0..20 (random bytes; 3/10 all-zero, all-ones or with leading zero bytes): text (hex, optional 0x, upper/lower case), binary (byte reversed), Scan/Value (Value also through database/sql's parameter converter on the identifier passed by value); wrong lengths must be rejected by all three decoders, and so must the right text followed or preceded by further characters (a digit, a byte pair, a newline, a blank, a comma and a second identifier) or cut by one digit. Every case is non-trivial.",
 		200000, 4000000, genRepr, checkRepr)
 }
